@@ -384,6 +384,47 @@ theorem putUser_stored (env : Env) (s : Server) (w : ResponseWriter) (rq : HTTPR
           simp [hb] at h; subst h
           simp [evStorePut] at hput
 
+/-! ### shortcuts (shortcut.go `Server.HandleIDPInitiated`) -/
+
+/-- the relay state a shortcut launch carries: the stored one when the shortcut has one, else `/` ++ the URL suffix when the shortcut
+    asks for that and there is a suffix, else none -/
+def shortcutRelay (sc : Shortcut) (suffix : String) : String :=
+  match sc.RelayState with
+  | some rs => rs
+  | none => if sc.URISuffixAsRelayState = true ∧ suffix ≠ "" then "/" ++ suffix else ""
+
+/-- C05 / C19: a shortcut request launches IdP-initiated login for exactly the service provider the stored shortcut names, with the
+    relay state `shortcutRelay`; when the shortcut cannot be read the only reply is one 500 and nothing is launched -/
+theorem shortcut_launch (env : Env) (s : Server) (w : ResponseWriter) (rq : HTTPRequest) (tr : List Event)
+    (h : HandleIDPInitiated env s w (some rq) = .ok tr) :
+    ∃ sc e, env.storeGet_Shortcut ("/shortcuts/" ++ env.pathValue rq "shortcut") = .ok (sc, e) ∧
+      ((e ≠ none ∧ tr = [evServerError]) ∨
+       (e = none ∧ tr = [⟨"s.IDP.ServeIDPInitiated", [sc.ServiceProviderID, shortcutRelay sc (env.pathValue rq "suffix")]⟩])) := by
+  unfold HandleIDPInitiated at h
+  simp only [deref_some, Outcome.ok_bind', Outcome.pure_eq_ok] at h
+  cases hg : env.storeGet_Shortcut ("/shortcuts/" ++ env.pathValue rq "shortcut") with
+  | err x => simp [hg] at h
+  | panic x => simp [hg] at h
+  | ok res =>
+    obtain ⟨sc, e⟩ := res
+    refine ⟨sc, e, rfl, ?_⟩
+    simp only [hg, Outcome.ok_bind'] at h
+    cases e with
+    | some x => simp at h; exact Or.inl ⟨by simp, by rw [← h]; rfl⟩
+    | none =>
+      simp only [Option.isSome_none, Bool.false_eq_true, if_false] at h
+      refine Or.inr ⟨rfl, ?_⟩
+      unfold shortcutRelay
+      cases hrs : sc.RelayState with
+      | some rs => simp [hrs] at h; rw [← h]
+      | none =>
+        cases hu : sc.URISuffixAsRelayState with
+        | false => simp [hrs, hu] at h; rw [← h]; simp
+        | true =>
+          by_cases hsf : env.pathValue rq "suffix" = ""
+          · simp [hrs, hu, hsf] at h; rw [← h]; simp [hsf]
+          · simp [hrs, hu, hsf] at h; rw [← h]; simp [hsf]
+
 theorem TransI_registry_no_failures : TransI.transFailures = [] := by decide
 
 end SamlVerif.TransRegistry
